@@ -101,6 +101,12 @@ structure Stream where
   flushable : Bool
   deriving Repr, DecidableEq
 
+/-- `StreamSink(stream)`: `_flushable` is decided once, by the GENERATED kernel, from what the stream
+exposes: a callable `flush`, its `line_buffering` and `write_through` attributes (a real file object
+reports its own buffering; a user class may report anything or nothing) -/
+def StreamSink.new (file : TextFile) (hasFlush lineBufferingAttr writeThrough : Bool) : Stream :=
+  { file := file, flushable := Gen.flushableOf hasFlush lineBufferingAttr writeThrough }
+
 def runStreamOp (m : Str) (s : Stream) : StreamOp → Stream
   | .write => { s with file := s.file.write m }
   | .flushIfFlushable => if s.flushable then { s with file := s.file.flush } else s
